@@ -222,6 +222,25 @@ def helpers(req):
         ents = [] if req["es"] == "_" else [e.split(":") for e in req["es"].split(",")]
         items = [(R(n), int(m, 16), O.sha_to_hex(R(h))) for n, m, h in ents]
         return {"v": hx(b"".join(O.serialize_tree(items))) + " sorted"}   # entries arrive in the harness's tree order
+    if k in ("tzfmt", "tzparse", "tefmt", "teparse"):
+        zh = lambda x: -int(x[1:], 16) if x.startswith("-") else int(x, 16)
+        hz = lambda n: ("-%x" % -n) if n < 0 else "%x" % n
+        try:
+            if k == "tzfmt":
+                return {"v": O.format_timezone(zh(req["off"]), req["neg"] == "1").hex()}
+            if k == "tzparse":
+                o, n = O.parse_timezone(R(req["t"]))
+                return {"v": "%s %d" % (hz(o), 1 if n else 0)}
+            if k == "tefmt":
+                return {"v": O.format_time_entry(R(req["person"]), zh(req["time"]), (zh(req["off"]), req["neg"] == "1")).hex()}
+            person, t, (o, n) = O.parse_time_entry(R(req["v"]))
+            if t is None:
+                return {"v": "nodate " + (person.hex() or "_")}
+            return {"v": "ok %s %s %s %d" % (person.hex(), hz(t), hz(o), 1 if n else 0)}
+        except ValueError:
+            return {"v": "valueerror"}
+        except O.ObjectFormatException:
+            return {"v": "error"}
     if k == "dec":
         return {"v": hx(str(int(req["n"], 16) if not req["n"].startswith("-") else -int(req["n"][1:], 16)).encode())}
 
